@@ -79,6 +79,13 @@ func (b *Broker) Close() {
 	for _, c := range b.Clients {
 		c.conn.Close()
 	}
+	// let every connection goroutine finish its Close() (unsubscribes, last will) before the
+	// cluster state and the store go away underneath it
+	deadline := time.Now().Add(3 * time.Second)
+	for b.Svc.VerifConnections() > 0 && time.Now().Before(deadline) {
+		time.Sleep(200 * time.Microsecond)
+	}
+	b.Settle()
 	b.Svc.Close()
 	os.RemoveAll(b.dir)
 }
